@@ -62,10 +62,16 @@ class Report(object):
     self.rule_counts[rule] = self.rule_counts.get(rule, 0) + n
 
   def fail(self, rule, unit, construct, message, loc=None, facts=None,
-           instance=None):
+           instance=None, observed=None):
     """Records a violated obligation.  `instance` names the configuration
     point; the same (rule, unit, construct) seen at several points is one
-    finding carrying all its instances."""
+    finding carrying all its instances.  `observed` (what the code did at
+    that point) becomes part of the instance, so that a recorded finding
+    only covers the recorded misbehaviour: a different wrong result at the
+    same point is a new instance."""
+    if observed is not None:
+      instance = "%s => %s" % (instance if instance is not None else
+                               "(no configuration)", observed)
     self.obligations += 1
     self.rule_counts[rule] = self.rule_counts.get(rule, 0) + 1
     f = Finding(rule, unit, construct, message, loc, facts)
@@ -82,11 +88,12 @@ class Report(object):
     self.findings.append(f)
 
   def check(self, cond, rule, unit, construct, message, loc=None, facts=None,
-            instance=None):
+            instance=None, observed=None):
     if cond:
       self.ok(rule)
     else:
-      self.fail(rule, unit, construct, message, loc, facts, instance)
+      self.fail(rule, unit, construct, message, loc, facts, instance,
+                observed)
     return cond
 
   def sample(self, obj, limit=12):
